@@ -10,6 +10,12 @@
 #include "str.h"
 extern unsigned long g_key_id;       /* ghost: content class of the ghost key (non-zero) */
 static inline int sv_key_class(sv k) { if (k.id == 0) return -1; return k.id == g_key_id ? 1 : 0; }
+/* data-structure invariant for the values of keys other than the ghost key: a spec may #undef/#define UMAP_OTHER_OK(M, p)
+   to the invariant it PROVES for the ghost key on every write (the ghost key is arbitrary, so the invariant holds for every
+   key); find() then assumes it for the unconstrained pair it returns for another key.  Default: nothing assumed. */
+#ifndef UMAP_OTHER_OK
+#define UMAP_OTHER_OK(M, p) 1
+#endif
 #define UMAP_T(V, M) \
   struct umap_##M##_pair { str first; V second; }; \
   struct umap_##M { _Bool has; struct umap_##M##_pair slot; unsigned long size; };
@@ -18,7 +24,7 @@ static inline int sv_key_class(sv k) { if (k.id == 0) return -1; return k.id == 
   static inline struct umap_##M##_pair *umap_##M##_find(struct umap_##M *m, sv key) { \
     int c = sv_key_class(key); \
     if (c == 1 || (c == -1 && nondet_bool())) return m->has ? &m->slot : (struct umap_##M##_pair *)0; \
-    if (nondet_bool()) return &g_umap_other_##M; \
+    if (nondet_bool()) { __CPROVER_assume(UMAP_OTHER_OK(M, (&g_umap_other_##M))); return &g_umap_other_##M; } \
     return (struct umap_##M##_pair *)0; } \
   static inline V *umap_##M##_index(struct umap_##M *m, sv key) { \
     int c = sv_key_class(key); \
